@@ -44,8 +44,8 @@ def run_job(job):
             res["result"] = repr(outcome[1])[:300]
             for E, cond in rz.items():
                 clauses["raises[%s].absent" % E.__name__] = not cond
-            for nm, f in contract.post(S, case, env, outcome[1]):
-                clauses["post." + nm] = bool(f)
+            for clause in contract.post(S, case, env, outcome[1]):
+                clauses["post." + clause[0]] = bool(clause[1])
             for nm, f in contract.canaries(S, case, env, outcome[1]):
                 clauses["canary." + nm] = bool(f)
         else:
